@@ -94,6 +94,10 @@ pub struct Plan {
     pub crash: String,
     #[serde(default)]
     pub crash_steps: Vec<(usize, usize)>,
+    /// entropy faults on the customer's generators: (channel, payment (-1 establish, 9999 close),
+    /// operation "new" | "start" | "close", first draw index, window width) -> all-zero draws
+    #[serde(default)]
+    pub entropy: Vec<(usize, i32, String, usize, usize)>,
 }
 
 // ------------------------------------------------------------------ history
@@ -400,6 +404,25 @@ impl<'a> World<'a> {
 
     fn rng(&self, chan: usize, pay: i32, what: &str) -> SimRng {
         SimRng::new(self.plan.seed, &format!("world/c{}/p{}/{}", chan, pay, what))
+    }
+
+    /// The customer's generator for one operation, with the plan's entropy faults applied.
+    fn customer_rng(&mut self, chan: usize, pay: i32, op: &str) -> SimRng {
+        let mut r = self.rng(chan, pay, &format!("customer/{}", op));
+        for (c, p, o, at, width) in &self.plan.entropy {
+            if *c == chan && *p == pay && o == op {
+                for i in *at..*at + *width {
+                    r.faults.insert(i, EntropyFault::Zeros);
+                }
+            }
+        }
+        r
+    }
+
+    fn note_entropy(&mut self, r: &SimRng) {
+        if r.faults_fired > 0 {
+            self.o.add("fault.entropy.customer-zero-draw", r.faults_fired as u64);
+        }
     }
 
     fn log(&mut self, chan: usize, pay: i32, kind: &str, dir: Dir, trace: Option<Trace>, outcome: &str, honest: bool) -> usize {
@@ -1155,9 +1178,11 @@ impl<'a> World<'a> {
                 crate::harness_error(&format!("world: start in stage {}", n));
             }
         };
-        let mut rng = self.rng(ci, pay as i32, "customer/start");
+        let mut rng = self.customer_rng(ci, pay as i32, "start");
         let ctx = ctx_for(self.plan.seed, ci, pay as i32);
-        match ready.start(&mut rng, amt, &ctx, &m.ccfg) {
+        let start_result = ready.start(&mut rng, amt, &ctx, &m.ccfg);
+        self.note_entropy(&rng);
+        match start_result {
             Ok((started, sm)) => {
                 self.chans[ci].stage = Stage::Started(started);
                 if !admissible {
@@ -1441,7 +1466,7 @@ impl<'a> World<'a> {
         let before = self.chans[ci].stage.trace();
         let stage = std::mem::replace(&mut self.chans[ci].stage, Stage::Closed);
         let sname = stage.name();
-        let mut rng = self.rng(ci, 9999, "customer/close");
+        let mut rng = self.customer_rng(ci, 9999, "close");
         let cm = match stage {
             Stage::Inactive(s) => s.close(&mut rng),
             Stage::Ready(s) => s.close(&mut rng),
@@ -1452,6 +1477,7 @@ impl<'a> World<'a> {
                 crate::harness_error(&format!("world: close in stage {}", n));
             }
         };
+        self.note_entropy(&rng);
         self.o.bump(&format!("probe.stop_at_{}", sname));
         let t = atoms::trace(&cm);
         let c = &self.chans[ci];
